@@ -58,7 +58,8 @@ def app(text, ref, level="model_checking"):
 CLAIMED.update({
     "C01": ("exploration", "2-safety on recorded replica pairs (ReplicasTrace.tla): same history in a separate OS process and directory, and with restarts",
             "Every history is executed by replica A in-process, by replica B in a separately started OS process on its own directory (started in a "
-            "later second of the wall clock), and by a "
+            "later second of the wall clock; clock probes: transactions whose signed creation time lies just beyond round distances from the "
+            "moment of execution are re-signed right before replica A runs), and by a "
             "replica restarted at random block boundaries; TLC checks that every DeliverTx result (code, data, gas), every validator-update list "
             "and every application hash is identical, and that the consensus-state digests agree after every call.",
             "one Go toolchain/architecture; histories sampled", "DESIGN.md 6/C01"),
@@ -67,7 +68,9 @@ CLAIMED.update({
                "cumulative equation at every commit; exact 256-bit arithmetic; boundary amounts and contract value flows included.", "DESIGN.md 6/C02"),
     "C03": app("Mutation matrix: for every transaction type a transaction known to succeed is signed, then every single-field mutation "
                "(incl. narrowing probes), signature byte flips, truncated/extended signatures, six other chain ids, other signers and the "
-               "protobuf pre-image are delivered and must fail without any state change; the unmutated transaction must then succeed.", "DESIGN.md 6/C03"),
+               "protobuf pre-image are delivered and must fail without any state change; the unmutated transaction must then succeed. Bytes the "
+               "signature does not cover (a payload attached to a type that has none) must not be executed: such a delivery does exactly what "
+               "the signed transaction does (reference run of the signed transaction).", "DESIGN.md 6/C03"),
     "C04": app("Nonce predicates on every recorded step: success only at the sender's nonce, +1 on success, unchanged on failure, nobody "
                "else's nonce changes (contracts inside an EVM transaction excepted), no signed transaction takes effect twice; replay pool in "
                "the generator, native and contract transactions mixed.", "DESIGN.md 6/C04"),
